@@ -46,7 +46,17 @@ var vocab = []string{
 
 var seps = []string{" ", "\n", "\r\n", "  ", "\t", " \n"}
 
+// genContent returns artifact-free content: fragments of the marker may occur, the marker itself never.
 func genContent(rnd *rand.Rand, maxTok int) []byte {
+	for {
+		c := genContent1(rnd, maxTok)
+		if !bytes.Contains(c, []byte(markerStr)) {
+			return c
+		}
+	}
+}
+
+func genContent1(rnd *rand.Rand, maxTok int) []byte {
 	var b bytes.Buffer
 	n := rnd.Intn(maxTok + 1)
 	switch rnd.Intn(8) {
